@@ -64,6 +64,8 @@ ATTR_NAMES = ['P', 'Q', 'note', 'Aa', 'b', 'Yy', 'H2']
 # it must raise.  Chosen so that shadowing them does not disturb the operations the histories use; read-only
 # properties (size, nbytes, a linker's LAGS / LEADS / sizes) are left out: assigning to them fails in `object`.
 REBINDABLE = ['name', '_LAGS', '_LEADS', 'aliases', 'preferred_names']
+# attributes the model / linker constructors register themselves (plain new names on a bare container)
+BUILTIN_ATTRS = ['engine', 'lags', 'leads', 'check', 'endogenous']
 CLASS_MEMBERS = ['copy', 'eval', 'exec', 'reindex', 'to_dataframe', '_ipython_key_completions_', 'NAMES', 'ENDOGENOUS',
                  'CHECK', 'CODE', 'solve', 'iter_periods', '_evaluate']
 
@@ -172,8 +174,9 @@ def rand_item(rng, names, n, labels):
         return {'op': 'addVariable', 'name': name, 'v': enc_operand(rand_operand(rng, n, rng.choice(KINDS + [None]))),
                 'dtype': kind}
     if r < 0.18:
-        return {'op': 'addAttribute', 'name': rng.choice(ATTR_NAMES + known[:1] + CLASS_MEMBERS[:4] +
-                                                         ['attributes', 'span', 'index', '_attributes', '_strict'])}
+        an = rng.choice(ATTR_NAMES + known[:1] + CLASS_MEMBERS[:4] + ['attributes', 'span', 'index', '_attributes', '_strict'])
+        # (add_attribute('strict' | 'values', value) would run the property setter with the harness's dummy value)
+        return {'op': 'addAttribute', 'name': 'attributes' if an in ('strict', 'values') else an}
     if r < 0.38:
         r2 = rng.random()
         name = nm() if r2 < 0.7 else rng.choice(ATTR_NAMES) if r2 < 0.85 else rng.choice(CLASS_MEMBERS)
@@ -182,6 +185,8 @@ def rand_item(rng, names, n, labels):
             # `_LEADS`; a mixin's `aliases`, `preferred_names`): assigning rebinds the entry and registers the name
             rb = rng.choice(REBINDABLE)     # (a linker's `name` is used as a keyword: it has to stay a string)
             return {'op': 'setAttr', 'name': rb, 'v': enc_operand('core' if rb == 'name' else rand_scalar(rng, 'i'))}
+        if rng.random() < 0.05:
+            return {'op': 'setAttr', 'name': rng.choice(BUILTIN_ATTRS), 'v': enc_operand(rand_scalar(rng, 'i'))}
         if rng.random() < 0.04:     # spelled like a variable's storage key (mostly of a variable that does not exist yet)
             name = '_' + rng.choice(NEW_NAMES + NEW_NAMES + known)
         if name in cc.INTERNAL_NAMES:
@@ -251,6 +256,7 @@ CORE_SPAN = {'type': 'range', 'args': [2000, 2003]}
 CORE_SETUP = [
     {'op': 'addVariable', 'name': 'A', 'v': enc_operand(1.0), 'dtype': None},
     {'op': 'addVariable', 'name': 'B', 'v': enc_operand([1, 2, 3]), 'dtype': None},
+    {'op': 'addAttribute', 'name': 'R'},
 ]
 
 
@@ -273,6 +279,8 @@ def core_alphabet():
         {'op': 'setAttr', 'name': 'B', 'v': E([0.5, 2.5, -1.75])},
         {'op': 'setAttr', 'name': 'B', 'v': E(np.array([1.0]))},
         {'op': 'setAttr', 'name': 'Q', 'v': E(1)},
+        {'op': 'setAttr', 'name': 'R', 'v': E(2)},
+        {'op': 'setAttr', 'name': 'A', 'v': E([[7], [8], [9]])},
         {'op': 'setAttr', 'name': 'Ab', 'v': E(1)},
         {'op': 'setAttr', 'name': 'copy', 'v': E(1)},
         {'op': 'setAttr', 'name': 'exec', 'v': E([1, 2, 3])},
@@ -342,6 +350,10 @@ def misfit(item, n, existing):
     if op in ('setItem', 'setPos', 'setPosSlice', 'setLabel', 'setLabelSlice') and name not in existing:
         return 'unknown-name'
     if op in WHOLE and name in existing:
+        if item['v']['t'] == 'nested':
+            # a list of lists is two-dimensional whatever its element count (1 x n, n x 1, 2 x n/2, ...): the wrong shape
+            # for a one-dimensional series that already exists (only `add_variable` flattens what it is given)
+            return 'wrong-shape'
         c = cc.operand_count(item['v'])
         if c is None or c not in (1, n):
             return 'wrong-size'
@@ -507,6 +519,12 @@ class Oracle:
                         self.violate('strict-no-suggestion', f'closest variable to {name!r} is {alts[0]!r}; message: {exc}', k)
             if op == 'setAttr' and name in before and scalar_kind(item['v']) in NUMERIC and out != 'ok':
                 self.violate('strict-blocks-existing', f'strict=True: update of existing variable {name} raised {out}', k)
+            if (op == 'setAttr' and name not in before and name in self.prev_attrs and name not in ('strict', 'values')
+                    and out != 'ok'):
+                # an attribute that already exists (made by add_attribute, by plain assignment before strict was
+                # switched on, or by the class's own __init__) is an "existing name": updating it keeps working
+                self.violate('strict-blocks-existing-attribute',
+                             f'strict=True: update of existing attribute {name} raised {out}', k)
             if (op == 'addVariable' and name not in before and name not in self.prev_attrs
                     and '_' + name not in self.prev_internal['keys'] and scalar_kind(item['v']) in NUMERIC
                     and item.get('dtype') in (None, 'f', 'i', 'b') and out != 'ok'):
@@ -515,6 +533,29 @@ class Oracle:
                 self.violate('strict-blocks-values-setter', f'strict=True: obj.values = <scalar> raised {out}', k)
         self.prev_attrs, self.prev_strict, self.prev_keys = attrs, bool(obj.strict), set(obj.__dict__)
         self.prev_internal = internal
+
+
+def scenario_cases():
+    """Fixed short histories on every flavour: existing attributes (three ways of coming into existence) updated under
+    strict; two-dimensional lists of every arrangement assigned to an existing series."""
+    spans = {4: {'type': 'range', 'args': [2000, 2004]}, 1: {'type': 'list', 'labels': [enc_label('p')]}}
+    E = enc_operand
+    for fl in ('container', 'model', 'built', 'linker'):
+        for strict0 in (False, True):
+            ops = [] if strict0 else [{'op': 'setAttr', 'name': 'P', 'v': E(1)}]       # plain assignment, strict off
+            ops += [{'op': 'addAttribute', 'name': 'Q'}, {'op': 'addVariable', 'name': 'A', 'v': E(1.0), 'dtype': 'f'},
+                    {'op': 'setStrict', 'b': True}]
+            ops += [{'op': 'setAttr', 'name': nm, 'v': E(v)} for nm, v in
+                    (('P', 2), ('Q', [1, 2]), ('Q', 'text'), ('engine', 5), ('lags', 3), ('A', 2.5), ('Qq', 1), ('P', 3))]
+            yield {'flavour': fl, 'strict': strict0, 'span': spans[4], 'ops': ops}
+        for n, nested in ((4, [[1, 2], [3, 4]]), (4, [[1, 2, 3, 4]]), (4, [[1], [2], [3], [4]]), (4, [[1, 2, 3], [4]]),
+                          (1, [[5]]), (4, [[5]]), (4, ((1, 2), (3, 4)))):
+            ops = [{'op': 'addVariable', 'name': 'A', 'v': E(1.0), 'dtype': 'f'},
+                   {'op': 'addVariable', 'name': 'B', 'v': E(list(range(n))), 'dtype': 'i'}]
+            for op in ('setAttr', 'setItem'):
+                ops += [{'op': op, 'name': 'A', 'v': E(nested)}, {'op': op, 'name': 'B', 'v': E(nested)}]
+            ops.append({'op': 'replaceValues', 'kvs': [['A', E(nested)]]})
+            yield {'flavour': fl, 'strict': False, 'span': spans[n], 'ops': ops}
 
 
 def check_cases(ctx, rep, cases, label):
@@ -550,6 +591,7 @@ def check_cases(ctx, rep, cases, label):
 
 def run(ctx, rep):
     quick = ctx.tier == 'quick'
+    check_cases(ctx, rep, list(scenario_cases()), 'scenario')
     core = list(core_cases(2 if quick else 2))
     check_cases(ctx, rep, core, 'core')
     n_random = (7500 if quick else 100000) * ctx.scale
